@@ -349,7 +349,15 @@ class _RecLink:
 def h_upload(sym):
     nmax = sym.B['max_len']
     n = conc(sym.int('len', 0, nmax), 0, nmax, 'len')
-    buff = sym.bytes('b', nmax)[:n]
+    if sym.B.get('ff_slots'):
+        # content classes instead of symbolic bytes: each 25-byte slot is all 0xFF (erased-flash padding) or a pattern, chosen
+        # by the solver; every byte must still be loaded (the target's RAM buffer keeps whatever an earlier load left there)
+        sel = [True if sym.bool(f'slot{k}_is_ff') else False for k in range((nmax + 24) // 25)]
+        buff = [0xFF if sel[i // 25] else (i * 7 + 3) % 251 for i in range(n)]
+        if any(sel[k] and (k + 1) * 25 <= n for k in range(len(sel))):
+            sym.goal('ff-slot')                 # a full 25-byte packet of 0xFF
+    else:
+        buff = sym.bytes('b', nmax)[:n]
     target = sym.int('target', 0, 255)
     page = sym.int('page', 0, 65535)
     address = sym.int('address', 0, 65535)
@@ -602,6 +610,8 @@ HARNESSES = [
                  '<= 2^25 and the page sizes used there'),
     Harness('upload', h_upload, quick=dict(max_len=80), thorough=dict(max_len=130), timeout=(280, 900),
             goals=('split', 'exact-multiple-of-25')),
+    Harness('upload[0xFF slots]', h_upload, quick=dict(max_len=80, ff_slots=True), thorough=dict(max_len=130, ff_slots=True), timeout=(600, 1700),
+            goals=('split', 'ff-slot'), symbolic=False, note='content per 25-byte slot all 0xFF or a pattern (solver-chosen, concrete bytes)'),
     Harness('retry-match', h_retry_match, quick=dict(max_tx=6), timeout=(200, 600), goals=('success', 'exhausted', 'negative')),
     Harness('retry-count', h_retry_count, quick=dict(max_tx=6), thorough=dict(max_tx=6, symbolic_wrong=3), timeout=(280, 1700),
             goals=('success', 'success-after-retry', 'exhausted', 'negative', 'stale-flushed')),
